@@ -1,4 +1,4 @@
 #!/bin/bash
 # run the pinned suite on /repo's working tree; prints the summary line (expected: 3 failed (root-only), 677 passed)
-cd /repo && /venv/bin/python -m pytest -q -p no:cacheprovider --timeout=900 --continue-on-collection-errors 2>&1 | tail -1
+cd /repo && /venv/bin/python -m pytest -q -p no:cacheprovider --timeout=900 --continue-on-collection-errors 2>&1 | grep -E " passed| failed" | tail -1
 git -C /repo status --short | grep -v '^??' | head
